@@ -39,6 +39,10 @@ from .kernel import Kernel, Kill, HarnessError
 GATEWAY = '192.168.254.254'
 
 
+class InjectedIOError(OSError):
+    """A transient I/O error injected by the harness."""
+
+
 class Container:
     """Harness-side record of one container (never read by the repository)."""
 
@@ -622,6 +626,26 @@ class Host:
             return 'complete'
         self.arm(cut)
         status = 'complete'
+        io_restore = None
+        if cut is not None and cut[0] == 'ioerror':
+            # the open(2) of the container's state.json fails once with a transient error (ENFILE: the system file table
+            # is momentarily full); everything after it works
+            from treadmill.appcfg import manifest as _manifest
+            real_io = _manifest.io
+            host = self
+
+            class _Io:
+                def __getattr__(self, attr):
+                    return getattr(real_io, attr)
+
+                @staticmethod
+                def open(path, *a, **kw):
+                    if not host.cut_fired and str(path).endswith('state.json'):
+                        host.cut_fired = True
+                        raise InjectedIOError(23, 'Too many open files in system (injected)', str(path))
+                    return real_io.open(path, *a, **kw)
+            _manifest.io = _Io()
+            io_restore = (_manifest, real_io)
         try:
             if via == 'finish':
                 _finish.finish(self.tm_env, container)
@@ -646,7 +670,11 @@ class Host:
             if not ((self.cut_fired or getattr(self, 'cut_fired_once', False)) and self.cut and self.cut[0] in ('error', 'error2')):
                 raise
             status = 'interrupted'
+        except InjectedIOError:
+            status = 'interrupted'          # the finish fails and is retried
         finally:
+            if io_restore is not None:
+                io_restore[0].io = io_restore[1]
             fired = self.disarm()
         if fired and status == 'complete':
             # the injected error was absorbed by the code under test: the operation still ended
